@@ -16,13 +16,13 @@ S18 = 'S18-smaller-buffer-installed-during-packet-switch'
 PARAMS = {
     # pid: quick (ncfg, nh), thorough (ncfg, nh), history kwargs, cfg kwargs
     'C01': dict(q=(24, 8), t=(400, 24), h=dict(p_full=0.1, p_other=0.1), c=dict(), lens=[6, 12, 30], extra=[40, 100, 300, 64]),
-    'C02': dict(q=(28, 10), t=(500, 30), h=dict(p_full=0.2, p_other=0.12, maxlen=6), c=dict(), lens=[8, 20, 40], extra=[0, 1, 3, 7, 9, 17, 23, 40, 64]),
-    'C03': dict(q=(24, 10), t=(400, 30), h=dict(p_full=0.3, p_other=0.2), c=dict(), lens=[5, 15, 40, 60], extra=[2, 9, 16, 33, 64, 120]),
-    'C04': dict(q=(24, 8), t=(400, 24), h=dict(p_full=0.25, p_other=0.2), c=dict(), lens=[10, 30, 60], extra=[4, 16, 40, 90]),
+    'C02': dict(q=(28, 10), t=(500, 30), h=dict(p_full=0.2, p_other=0.12, maxlen=6, p_toggle=0.08), c=dict(), lens=[8, 20, 40], extra=[0, 1, 3, 7, 9, 17, 23, 40, 64]),
+    'C03': dict(q=(24, 10), t=(400, 30), h=dict(p_full=0.3, p_other=0.2, p_toggle=0.12, p_eager=0.12), c=dict(), lens=[5, 15, 40, 60], extra=[2, 9, 16, 33, 64, 120]),
+    'C04': dict(q=(24, 8), t=(400, 24), h=dict(p_full=0.25, p_other=0.2, p_toggle=0.06), c=dict(), lens=[10, 30, 60], extra=[4, 16, 40, 90]),
     'C05': dict(q=(24, 8), t=(400, 24), h=dict(p_full=0.25, p_other=0.2), c=dict(clock_p=1.0), lens=[10, 30, 60], extra=[0, 8, 24, 60, 100]),
     'C06': dict(q=(20, 10), t=(300, 30), h=dict(p_full=0.3, p_other=0.45, p_swap=0.15, p_toggle=0.0, p_same_addr=0.5), c=dict(), lens=[6, 20, 50], extra=[0, 8, 30, 64]),
-    'C07': dict(q=(20, 10), t=(300, 30), h=dict(p_full=0.2, p_other=0.4, p_toggle=0.25), c=dict(), lens=[8, 20, 40], extra=[4, 20, 64]),
-    'C16': dict(q=(20, 8), t=(300, 24), h=dict(p_full=0.3, p_other=0.35, p_toggle=0.15, p_swap=0.1), c=dict(), lens=[8, 20, 40], extra=[0, 12, 40]),
+    'C07': dict(q=(20, 10), t=(300, 30), h=dict(p_full=0.2, p_other=0.4, p_toggle=0.25, p_eager=0.1), c=dict(), lens=[8, 20, 40], extra=[4, 20, 64]),
+    'C16': dict(q=(20, 8), t=(300, 24), h=dict(p_full=0.3, p_other=0.35, p_toggle=0.15, p_swap=0.1, p_eager=0.25), c=dict(), lens=[8, 20, 40], extra=[0, 12, 40]),
 }
 
 
@@ -48,6 +48,7 @@ def run_one_config(args):
             return res
         if pid in ('C02', 'C03'):
             res['probes'], res['probe_error'] = tc.probe_sizes(cfg, s, d, rng)
+            res['rprobes'], res['rprobe_error'] = tc.probe_reserve(d, rng)
         impl = tc.run_impl(exe, len(hists))
         evs = [tc.split_events(t) for t, _ in impl]
         packets = [tc.packets_of(e) for e in evs]
@@ -115,7 +116,8 @@ def atomic_variant(s, h, events):
     calls += h['calls'][len(groups):]
     if not changed:
         return None
-    return {'calls': calls, 'oracle': oracle, 'pcargs': h['pcargs'], 'buf': h['buf'], 'same_addr': h.get('same_addr')}, mapping
+    return {'calls': calls, 'oracle': oracle, 'pcargs': h['pcargs'], 'buf': h['buf'], 'same_addr': h.get('same_addr'),
+            'eager': h.get('eager')}, mapping
 
 
 def atomicity_runs(cfg, s, hists, evs, impl, workdir):
@@ -590,6 +592,14 @@ def oracle_flag(ctx, r, hi, stats):
                 if e[2] != 1:
                     ctx.violation('C16: callback kind %d invoked by a tracing call with the flag reading 0' % e[1], rep)
                     return
+        for e in evs:
+            if e[0] == 5:      # eager platform: flag when a callback returns to its caller
+                stats['callback_exits_checked'] += 1
+                if e[2] != e[3]:
+                    ctx.violation('C16: the in-tracing-section flag reads %d when callback kind %d returns although it read %d at its entry: '
+                                  'an API function called by the platform (open / close on a packet in any state) does not restore the flag, and '
+                                  'the stores that follow happen with the flag reading %d' % (e[3], e[1], e[2], e[3]), dict(rep, eager_platform=True))
+                    return
 
 
 def cfg_repr(cfg):
@@ -672,10 +682,36 @@ def campaign(ctx, pid):
                         elif pid == 'C03':
                             ctx.violation('C03: the generated size function returns %d bits for a record that occupies %d bits (position %d): records are '
                                           'discarded / accepted against the wrong size' % (pr['impl'], pr['expected'], pr['at']), rep)
+            if r.get('rprobes') is None:
+                ctx.corr_broken.append('config seed %d: %s' % (r['seed'], r.get('rprobe_error')))
+            else:
+                for pr in r['rprobes']:
+                    stats['reserve_probes'] += 1
+                    if tuple(pr['impl']) == tuple(pr['expected']):
+                        continue
+                    stats['reserve_probe_mismatches'] += 1
+                    if stats['reserve_probe_mismatches'] <= 3:
+                        iret, icb, idisc, iat = pr['impl']
+                        eret, ecb, edisc, eat = pr['expected']
+                        rep = dict(pr, config_seed=r['seed'], note='context fields set by hand, real _reserve_er_space() called with stub callbacks; '
+                                   'expected = decision in unbounded arithmetic (fits iff at + er_size <= packet_size)')
+                        if pid == 'C02' and iret == 1 and (eret == 0 or iat + pr['er_size'] > pr['packet_size']):
+                            ctx.violation('C02: _reserve_er_space accepts a record of %d bits at position %d of a packet of %d bits (callbacks %r): '
+                                          'the record is then written past the end of the buffer (32-bit arithmetic)' % (
+                                              pr['er_size'], iat, pr['packet_size'], icb), rep)
+                        else:
+                            ctx.violation('%s: _reserve_er_space decides (return %d, callbacks %r, discards %d, position %d) where the record of %d bits at '
+                                          'position %d of a %d-bit packet requires (return %d, callbacks %r, discards %d, position %d)' % (
+                                              pid, iret, icb, idisc, iat, pr['er_size'], pr['at'], pr['packet_size'], eret, ecb, edisc, eat), rep)
         for hi, h in enumerate(r['hists']):
             stats['histories'] += 1
             stats['calls'] += len(h['calls'])
-            verdict = compare_model(ctx, r, hi, stats)
+            if h.get('eager'):
+                # eager (double-buffering) platform: not a platform of the Coq model; implementation-side oracles only
+                stats['eager_platform_histories'] += 1
+                verdict = 'eager'
+            else:
+                verdict = compare_model(ctx, r, hi, stats)
             toks, err = r['impl'][hi]
             if verdict == 'memerr-silent':
                 continue
@@ -700,6 +736,9 @@ def campaign(ctx, pid):
                     ctx.notes.append('unclassified memory error: config seed %d history %d (%s)' % (r['seed'], hi, err[1][:100]))
                 if cls is None and pid == 'C02':
                     ctx.violation('C02: the generated tracer accessed memory outside the packet buffer / executed an undefined operation: %s' % err[1][:160], rep)
+                if cls is None and pid == 'C03':
+                    ctx.violation('C03: a tracing call made while tracing was enabled is neither recorded inside a packet nor counted as discarded: '
+                                  'the run stops inside the call (%s) - not one of the known S9 / S18 histories' % err[1][:120], rep)
                 continue
             # a history in which the known findings S9 / S18 struck without a memory error (alignment
             # padding alone pushed ctx->at beyond packet_size: content size > packet size) is not
